@@ -82,21 +82,42 @@ def replay_counterexample(prop, ob, res):
     ob2 = copy.copy(ob)
     ob2.mem_gb = min(44, max(24, 2 * ob.mem_gb))
     ob2.timeout = max(1800, 2 * ob.timeout)
-    # --slice-formula keeps the playback run as small as the deciding run
-    # (Kani drops it for playback; without it this run needs 10x the memory)
-    ob2.extra = list(ob.extra) + ["--cbmc-args", "--slice-formula"]
-    pb = K.run_obligation(ob2, 15, playback=True)
-    with open(pb["log"], "rb") as f:
-        text = f.read().decode("utf-8", "replace")
-    entries, which = _extract_entries(text, [f["description"] for f in res.get("failed", [])])
-    dev = run_native(ob.harness, "", release=False, entries=entries)
+    failed_desc = [f["description"] for f in res.get("failed", [])]
+    entries, dev, attempts = [], {"reproduced": False, "why": "no playback values"}, []
+    # attempt 1: Kani's own playback (complete trace => exact positions); small harnesses only
+    if (res.get("wall_s") or 0) < 45:
+        ob2.extra = list(ob.extra)
+        ob2.timeout = 600
+        pb = K.run_obligation(ob2, 15, playback=True)
+        with open(pb["log"], "rb") as f:
+            text = f.read().decode("utf-8", "replace")
+        entries, which = _extract_entries(text, failed_desc)
+        attempts.append("full-trace playback: %d values" % len(entries))
+        if entries:
+            dev = run_native(ob.harness, b"".join(entries).hex(), release=False)
+            if dev["reproduced"]:
+                dev["stream"] = b"".join(entries).hex()
+    if not dev["reproduced"]:
+        # attempt 2: --slice-formula keeps the playback run as small as the deciding run (Kani drops
+        # it for playback; without it large harnesses need 10x the memory). The sliced trace omits
+        # don't-care values, so the native driver searches the alignment of the remaining ones.
+        ob2.extra = list(ob.extra) + ["--cbmc-args", "--slice-formula"]
+        ob2.timeout = max(1800, 2 * ob.timeout)
+        pb = K.run_obligation(ob2, 15, playback=True)
+        with open(pb["log"], "rb") as f:
+            text = f.read().decode("utf-8", "replace")
+        entries2, which = _extract_entries(text, failed_desc)
+        attempts.append("sliced playback: %d values" % len(entries2))
+        if entries2 or not entries:
+            entries = entries2
+            dev = run_native(ob.harness, "", release=False, entries=entries)
     hexv = dev.get("stream") or ""
     rel = run_native(ob.harness, hexv, release=True) if dev["reproduced"] else {"reproduced": False, "why": "skipped"}
     h = hashlib.sha1((ob.harness + hexv).encode()).hexdigest()[:10]
     path = os.path.join(REPLAY_DIR, prop, "%s_%s.json" % (ob.harness.replace("::", "__"), h))
     doc = {
         "property": prop, "kind": "kani", "harness": ob.harness, "values_hex": hexv,
-        "solver_entries": [e.hex() for e in entries],
+        "solver_entries": [e.hex() for e in entries], "replay_attempts": attempts,
         "seed": int(os.environ.get("VERIF_SEED", "0") or 0), "tier": os.environ.get("VERIF_TIER_EFFECTIVE", "quick"),
         "failed_checks": res.get("failed", []), "what": ob.desc,
         "native_dev": {k: dev.get(k) for k in ("reproduced", "why", "panic")},
